@@ -1,26 +1,23 @@
 """Shared by C03 (fetch / push / pull / sprout) and C08 (stacked repositories): materialise a history of specs/Fetch.tla
 (graph P, revision trees T) as a real branch, and project real repositories to the abstract content of that spec.
 
-Abstract -> real:  revision k = b"r<k>", the ghost = b"ghost9"; file f in {"a", "b"} has file id b"id-<f>", is called <f>
+Abstract -> real:  revision k = b"r<k>" (a parent number outside 1..n is a ghost: the absent revision b"r9"); file f in {"a", "b"} has file id b"id-<f>", is called <f>
 (entry.alt false) or <f>x (alt true) and holds b"<f>@<content>\\n"; file "l" is a symbolic link to "t<content>"; the root
 directory has id b"root-id".
 """
 import hashlib
 import json
 
-GHOST = 9
-GHOST_ID = b"ghost9"
+GHOST = 9      # GhostId of Fetch.tla: a ghost only in a history of fewer than 9 revisions (a parent outside 1..n is a ghost)
 ROOT_ID = b"root-id"
 
 
 def rid(k):
-    return GHOST_ID if k == GHOST else b"r%d" % k
+    return b"r%d" % k
 
 
 def num(revid):
     """Revision id -> number of the abstract history (0 = not a revision of the universe)."""
-    if revid == GHOST_ID:
-        return GHOST
     if revid[:1] == b"r" and revid[1:].isdigit():
         return int(revid[1:])
     return 0
@@ -94,7 +91,7 @@ def build_history(P, T, fmt, transport=None, branch=None, signed=()):
     with branch.lock_write():
         for k, ps in enumerate(P, 1):
             want = tree_of(T[k - 1])
-            left = ps[0] if ps and ps[0] != GHOST else None
+            left = ps[0] if ps and ps[0] <= len(P) else None
             base = tree_of(T[left - 1]) if left else {}
             # the tree starts from the left-hand parent (from nothing for a root or a ghost left-hand parent; the
             # commit only insists that the branch tip is the tree's first parent or null)
@@ -102,7 +99,7 @@ def build_history(P, T, fmt, transport=None, branch=None, signed=()):
             tree = branch.create_memorytree()
             with tree.lock_write():
                 if ps:
-                    tree.set_parent_ids([rid(p) for p in ps], allow_leftmost_as_ghost=ps[0] == GHOST)
+                    tree.set_parent_ids([rid(p) for p in ps], allow_leftmost_as_ghost=ps[0] > len(P))
                 apply_tree(tree, base, want, left is None)
                 tree.commit("revision %d" % k, rev_id=rid(k), timestamp=1000000000 + k, timezone=0, committer="C <c@e.com>")
     b = branch
@@ -123,7 +120,7 @@ def build_history(P, T, fmt, transport=None, branch=None, signed=()):
 def mainline_len(P, k):
     """Number of revisions on the left-hand history of k (it ends at a root or at a ghost)."""
     c = 0
-    while k and k != GHOST:
+    while k and k <= len(P):
         c += 1
         k = P[k - 1][0] if P[k - 1] else 0
     return c
@@ -132,7 +129,7 @@ def mainline_len(P, k):
 def mainline_has_ghost(P, k):
     """Does the left-hand history of k end in a ghost (so that the revision has no revno)?"""
     while P[k - 1]:
-        if P[k - 1][0] == GHOST:
+        if P[k - 1][0] > len(P):
             return True
         k = P[k - 1][0]
     return False
@@ -247,7 +244,7 @@ def ancestry(P, rev):
     out, todo = set(), [rev]
     while todo:
         k = todo.pop()
-        if k in out or k == GHOST or k < 1 or k > len(P):
+        if k in out or k < 1 or k > len(P):
             continue
         out.add(k)
         todo.extend(P[k - 1])
